@@ -14,13 +14,16 @@ for d in sorted(glob.glob('/verif/seeded/*/')):
     desc = re.sub(r'\s+', ' ', desc)[:170]
     rows.append((os.path.basename(d.rstrip('/')), desc, m['detected']['summary']))
 def rnd(name):
-    return 5 if '-r5-' in name else 4 if '-r4-' in name else 3 if '-r3-' in name else 2 if '-r2-' in name else 1
+    return 6 if '-r6-' in name else 5 if '-r5-' in name else 4 if '-r4-' in name else 3 if '-r3-' in name else 2 if '-r2-' in name else 1
 stats = {}
 for r in rows:
     k = rnd(r[0])
-    st = stats.setdefault(k, [0, 0])
+    st = stats.setdefault(k, [0, 0, 0])
     st[0] += 1
-    if 'missed' in r[2].lower() or 'not caught' in r[2] or 'INCONCLUSIVE' in r[2]:
+    low = r[2].lower()
+    if low.startswith('not a violation') or low.startswith('not claimed'):
+        st[2] += 1
+    elif 'missed' in low or 'not caught' in low or 'inconclusive' in low or low.startswith('not reported'):
         st[1] += 1
 out = f"""
 ## 9. Seeded breaking changes and which checks catch them
@@ -36,18 +39,21 @@ calls (accessors that hand out internal state, caches keyed by identity, re-init
 and at sizes past every threshold the earlier rounds had provoked; round 5 for two more, given the earlier nine,
 written as realistic maintenance commits (performance work: word-parallel tricks, unrolling, pooled or package-level
 scratch memory, narrowed integer types, fast paths above a size; refactors; well-meant robustness "fixes") whose slip
-needs two thresholds at once, a size between 64 and 5000, a particular error value, or a value with a past. Each change compiles, passes the repository's own
+needs two thresholds at once, a size between 64 and 5000, a particular error value, or a value with a past; round 6 for
+two more, given the earlier eleven, restricted to ALGORITHMIC slips inside the algorithms themselves (an invariant
+restored in all but one branch, a tie broken the wrong way, an over-eager early exit, a missing case) that are wrong
+for a structurally special minority of SMALL inputs. Each change compiles, passes the repository's own
 test-suite and comes with a demonstration test that fails with the change and passes without it; all of that was
 re-confirmed with `tools/eval_mut.sh` (C19-r2-2 by hand under `-race`) before the change was kept under
 `seeded/<property>-<k>/`, `seeded/<property>-r<round>-<k>/` (`patch.diff`, `demo_test.go.txt`,
 `note.md`, `meta.json`). To run the checks against one: `git -C /repo apply seeded/<id>/patch.diff; ./check <ID>;
 git -C /repo checkout -- .`.
 
-| round | changes | reported by the quick tier as it stood on arrival | needed a strengthening (or belong to another check) |
-|---|---|---|---|
-""" + "".join(f"| {k} | {v[0]} | {v[0]-v[1]} | {v[1]} |\n" for k, v in sorted(stats.items())) + """
+| round | changes | reported by the quick tier as it stood on arrival | needed a strengthening (or belong to another check) | outside the property as stated (not claimed) |
+|---|---|---|---|---|
+""" + "".join(f"| {k} | {v[0]} | {v[0]-v[1]-v[2]} | {v[1]} | {v[2]} |\n" for k, v in sorted(stats.items())) + """
 (For round 2 the checks had already been extended after reading the authors' notes, so "on arrival" is generous there;
-for rounds 1, 3, 4 and 5 every change was run first.) After the strengthenings every seeded change is reported by the quick
+for rounds 1, 3, 4, 5 and 6 every change was run first.) After the strengthenings every seeded change is reported by the quick
 tier of some check, except C04-r2-3 (quick: about one seed in four; thorough: always). Changes reported by a different
 check than the one they were written for: C03-r2-1 (C01/C02), C03-r2-2 (C19), C03-r2-3 (C18), C10-r3-2 (C06),
 C19-r3-1 (C13) - each because the behaviour it breaks is that other property's subject. In round 4 four changes to
@@ -55,7 +61,11 @@ shared helpers were first reported by the helper's own property (C06-r4-1 and C0
 C20-r4-1 by C19) and silent in the check they were written for; the generators of those checks were then extended
 until they report them too (hub hosts for views, Kneser n > 32, re-entrant weight functions). In round 5, C09-r5-2 was first reported by C05, C13-r5-2 is
 reported by C12 only (the automata of C13 come from `dawg.New`; the change needs a Builder that is carried on after a
-rejected Add), and C19-r5-1 was first caught by the sequential C09 check once delivered cliques were watched.
+rejected Add), and C19-r5-1 was first caught by the sequential C09 check once delivered cliques were watched. Round 6 (algorithmic slips
+on small structured inputs) is where the checks were strongest: 34 of 38 valid changes were reported on arrival. Two round-6
+changes to `Load` are not claimed: C04-r6-1 only matters for a >= m, outside the quantifier 0 <= a < m; C04-r6-2 breaks
+loading several saves from ONE shared reader, which the property does not promise (and which the unmodified code does not
+deliver either for a reader that is not an io.ByteReader) - asserting it would demand more than the property states.
 
 | seeded change | what it does (from the author's note) | result |
 |---|---|---|
